@@ -34,6 +34,9 @@
 #include <sys/mman.h>
 #include <sys/stat.h>
 #include <sys/time.h>
+#include <sys/wait.h>
+#include <sanitizer/asan_interface.h>
+#include <cerrno>
 #include <unistd.h>
 
 namespace vf {
@@ -196,8 +199,33 @@ static void on_sigabrt(int)
     if (g_cur_op) { r = write(2, g_cur_op, strlen(g_cur_op)); r = write(2, "\n", 1); }
     _exit(97);
 }
+// ---------------------------------------------------------------- per-case watchdog
+// A library call that never returns is a violation of whatever property the case belongs to (the operation does not
+// complete), not an inconclusive run: every case gets a CPU-time budget far above what any generated case needs
+// (the slowest legitimate ones, 2^30 callback calls or 10^5-element scale runs under ASan, take 10-20 s).
+static const int CASE_CPU_SECONDS = 240;
+static void on_vtalrm(int)
+{
+    static const char m[] = "VERIF-FAIL clause=liveness.case_timeout msg=the case did not finish within its CPU-time budget: a library call does not return\n";
+    ssize_t r = write(2, m, sizeof m - 1);
+    (void)r;
+    if (g_cur_op) { r = write(2, "during ", 7); r = write(2, g_cur_op, strlen(g_cur_op)); r = write(2, "\n", 1); }
+    _exit(97);
+}
+static void arm_watchdog()
+{
+    struct itimerval it;
+    memset(&it, 0, sizeof it);
+    it.it_value.tv_sec = CASE_CPU_SECONDS;
+    setitimer(ITIMER_VIRTUAL, &it, nullptr);        // CPU time of this process: machine load does not matter
+}
 static void install_abort_handler()
 {
+    struct sigaction sv;
+    memset(&sv, 0, sizeof sv);
+    sv.sa_handler = on_vtalrm;
+    sigemptyset(&sv.sa_mask);
+    sigaction(SIGVTALRM, &sv, nullptr);
     struct sigaction sa;
     memset(&sa, 0, sizeof sa);
     sa.sa_handler = on_sigabrt;
@@ -207,6 +235,14 @@ static void install_abort_handler()
 }
 
 // ---------------------------------------------------------------- allocation interposer
+} // namespace vf
+extern "C" {
+void *__real_malloc(size_t);
+void *__real_calloc(size_t, size_t);
+void *__real_realloc(void *, size_t);
+void __real_free(void *);
+}
+namespace vf {
 struct AllocEv { char kind; void *p; size_t sz; };  // 'm' malloc, 'f' free, 'r' realloc(new), 'x' failed
 static volatile int in_lib = 0;         // >0 while executing library code (volatile + barriers: gcc knows what free()
                                         // and malloc() do and would otherwise move the bookkeeping across such calls)
@@ -232,8 +268,82 @@ static void *big_map(size_t sz)
     return p == MAP_FAILED ? nullptr : p;
 }
 
+// Allocator personalities. The sanitizer's allocator never hands a freed address out again soon, never grows a block
+// in place, and (with the options this harness sets) fills fresh memory with 0xBE. A defect that depends on the
+// opposite -- realloc() returning the same pointer, a node landing on the address of the one just freed, fresh
+// memory that happens to be zero -- can never show under it. So a share of the cases (chosen by the case's hash)
+// runs the library on a thin layer over it that behaves like an ordinary malloc:
+//   fill:   fresh bytes (malloc, and the tail a growing realloc adds) hold 0x00 or 0xFF instead of 0xBE
+//   recycle: every block gets slack behind it (poisoned: touching it is still reported), a realloc that fits is done in
+//            place, and freed blocks are kept (poisoned) on a LIFO per size and handed out again at once
+static bool g_no_alloc_modes = false;      // harnesses whose oracle depends on the sanitizer's allocator (fibres) opt out
+static int g_alloc_fill = -1;              // -1: leave what the sanitizer put there
+static bool g_alloc_recycle = false;
+static std::unordered_map<void *, size_t> *g_caps;     // recycle mode: usable bytes of each block it handed out
+static std::map<size_t, std::vector<void *>> *g_free_cache;
+static const size_t RECYCLE_MAX = 4096;    // larger requests go straight to the sanitizer's allocator
+static size_t cap_for(size_t sz) { size_t c = 16; while (c < sz) c <<= 1; return c; }
+static void *arena_malloc(size_t sz)
+{
+    if (!g_alloc_recycle || sz > RECYCLE_MAX) {
+        void *p = __real_malloc(sz);
+        if (p && g_alloc_fill >= 0) memset(p, g_alloc_fill, sz);
+        return p;
+    }
+    size_t cap = cap_for(sz);
+    void *p = nullptr;
+    auto &fl = (*g_free_cache)[cap];
+    if (!fl.empty()) { p = fl.back(); fl.pop_back(); }
+    else p = __real_malloc(cap);
+    if (!p) return nullptr;
+    ASAN_UNPOISON_MEMORY_REGION(p, cap);
+    if (g_alloc_fill >= 0) memset(p, g_alloc_fill, sz);
+    if (cap > sz) ASAN_POISON_MEMORY_REGION((char *)p + sz, cap - sz);
+    (*g_caps)[p] = cap;
+    return p;
+}
+static void arena_free(void *p)
+{
+    auto it = g_caps->find(p);
+    if (it == g_caps->end()) { __real_free(p); return; }
+    size_t cap = it->second;
+    g_caps->erase(it);
+    ASAN_UNPOISON_MEMORY_REGION(p, cap);
+    memset(p, 0xDD, cap);
+    ASAN_POISON_MEMORY_REGION(p, cap);      // a later touch through a stale pointer is reported (use-after-poison)
+    (*g_free_cache)[cap].push_back(p);
+}
+static void *arena_realloc(void *old, size_t oldsz, size_t sz)
+{
+    auto it = old ? g_caps->find(old) : g_caps->end();
+    if (old && it != g_caps->end() && sz <= it->second) {
+        // fits: in place, like an ordinary allocator
+        size_t cap = it->second;
+        ASAN_UNPOISON_MEMORY_REGION(old, cap);
+        if (sz > oldsz && g_alloc_fill >= 0) memset((char *)old + oldsz, g_alloc_fill, sz - oldsz);
+        if (cap > sz) ASAN_POISON_MEMORY_REGION((char *)old + sz, cap - sz);
+        return old;
+    }
+    if (old && it == g_caps->end() && !(g_alloc_recycle && sz <= RECYCLE_MAX)) {
+        void *p = __real_realloc(old, sz);
+        if (p && sz > oldsz && g_alloc_fill >= 0) memset((char *)p + oldsz, g_alloc_fill, sz - oldsz);
+        return p;
+    }
+    void *p = arena_malloc(sz);
+    if (!p) return nullptr;
+    if (old) { memcpy(p, old, sz < oldsz ? sz : oldsz); arena_free(old); }
+    return p;
+}
+static void arena_flush()
+{
+    if (!g_free_cache) return;
+    for (auto &kv : *g_free_cache) for (void *p : kv.second) { ASAN_UNPOISON_MEMORY_REGION(p, kv.first); __real_free(p); }
+    g_free_cache->clear();
+}
+
 static void alloc_init()
 {
+    if (!g_caps) { g_caps = new std::unordered_map<void *, size_t>(); g_free_cache = new std::map<size_t, std::vector<void *>>(); }
     if (!g_live) {
         g_live = new std::unordered_map<void *, size_t>();
         g_events = new std::vector<AllocEv>();
@@ -283,10 +393,6 @@ struct HarnessScope {   // code in callbacks that is *not* library code
 } // namespace vf
 
 extern "C" {
-void *__real_malloc(size_t);
-void *__real_calloc(size_t, size_t);
-void *__real_realloc(void *, size_t);
-void __real_free(void *);
 
 void *__wrap_malloc(size_t sz)
 {
@@ -297,7 +403,7 @@ void *__wrap_malloc(size_t sz)
     if (g_alloc_hook) g_alloc_hook('m', nullptr, sz);
     if (!should_fail(sz)) {
         if (sz > g_alloc_limit) { p = big_map(sz); if (p) g_bigs->insert(p); }
-        else p = __real_malloc(sz);
+        else p = arena_malloc(sz);
         if (p) (*g_live)[p] = sz;
     }
     if (g_record_events) g_events->push_back({p ? 'm' : 'x', p, sz});
@@ -313,7 +419,8 @@ void *__wrap_calloc(size_t n, size_t m)
     unsigned __int128 tot = (unsigned __int128)n * m;
     size_t sz = tot > SIZE_MAX ? SIZE_MAX : (size_t)tot;
     if (!should_fail(sz)) {
-        p = __real_calloc(n, m);
+        if (g_alloc_recycle && sz <= RECYCLE_MAX) { p = arena_malloc(sz); if (p) memset(p, 0, sz); }
+        else p = __real_calloc(n, m);
         if (p) (*g_live)[p] = sz;
     }
     if (g_record_events) g_events->push_back({p ? 'm' : 'x', p, sz});
@@ -335,7 +442,7 @@ void *__wrap_realloc(void *old, size_t sz)
             size_t osz = (*g_live)[old];
             g_live->erase(old);
             if (g_record_events) g_events->push_back({'f', old, 0});
-            if (g_bigs->count(old)) { munmap(old, osz); g_bigs->erase(old); } else __real_free(old);
+            if (g_bigs->count(old)) { munmap(old, osz); g_bigs->erase(old); } else arena_free(old);
             in_lib = save;
             return nullptr;
         }
@@ -344,15 +451,15 @@ void *__wrap_realloc(void *old, size_t sz)
     if (!should_fail(sz)) {
         bool oldbig = old && g_bigs->count(old), newbig = sz > g_alloc_limit;
         size_t oldsz = old ? (*g_live)[old] : 0;
-        if (!oldbig && !newbig) p = __real_realloc(old, sz);
+        if (!oldbig && !newbig) p = arena_realloc(old, oldsz, sz);
         else if (oldbig && newbig) {
             p = mremap(old, oldsz, sz, MREMAP_MAYMOVE);
             if (p == MAP_FAILED) p = nullptr; else { g_bigs->erase(old); g_bigs->insert(p); }
         } else if (newbig) {
             p = big_map(sz);
-            if (p) { if (old) { memcpy(p, old, oldsz); __real_free(old); } g_bigs->insert(p); }
+            if (p) { if (old) { memcpy(p, old, oldsz); arena_free(old); } g_bigs->insert(p); }
         } else {
-            p = __real_malloc(sz);
+            p = arena_malloc(sz);
             if (p) { memcpy(p, old, sz < oldsz ? sz : oldsz); munmap(old, oldsz); g_bigs->erase(old); }
         }
         if (p) {
@@ -376,7 +483,7 @@ void __wrap_free(void *p)
     size_t fsz = (*g_live)[p];
     g_live->erase(p);
     if (g_record_events) g_events->push_back({'f', p, 0});
-    if (g_bigs->count(p)) { munmap(p, fsz); g_bigs->erase(p); } else __real_free(p);
+    if (g_bigs->count(p)) { munmap(p, fsz); g_bigs->erase(p); } else arena_free(p);
     in_lib = save;
 }
 
@@ -395,8 +502,36 @@ namespace vf {
 // Run a library call. LIB(x): abort is a violation. MAY_ABORT(x): returns true
 // if the call ended in abort(); the objects involved must then be abandoned.
 #define LIB(stmt) do { vf::in_lib = vf::in_lib + 1; __asm__ volatile("" ::: "memory"); stmt; __asm__ volatile("" ::: "memory"); vf::in_lib = vf::in_lib - 1; } while (0)
+// "aborts" means the call cannot continue: abort() terminates the process even when SIGABRT is ignored or handled by a
+// handler that returns, raise(SIGABRT) does not. In 1 case of 1024 every call that may abort is first tried in a forked
+// child with SIGABRT ignored; if that child comes back although the real run below ends in SIGABRT, the library merely
+// raised the signal and would have carried on.
+static bool g_fork_probe = false;
+static bool g_in_fibre = false;      // (set by harnesses that run library code on their own stacks: no fork there)
+template <class F> static int probe_child_survives(F &f)
+{
+    fflush(nullptr);
+    pid_t pid = fork();
+    if (pid < 0) return -1;
+    if (pid == 0) {
+        signal(SIGABRT, SIG_IGN);
+        struct itimerval it;
+        memset(&it, 0, sizeof it);
+        setitimer(ITIMER_VIRTUAL, &it, nullptr);
+        alarm(20);
+        g_abort_armed = 0;
+        in_lib = in_lib + 1;
+        f();
+        _exit(0);               // came back: either no abort was attempted, or it did not stop the call
+    }
+    int st = 0;
+    while (waitpid(pid, &st, 0) < 0 && errno == EINTR) {}
+    if (WIFEXITED(st) && WEXITSTATUS(st) == 0) return 1;
+    return 0;                   // killed (SIGABRT, or anything else: the real run decides what that means)
+}
 template <class F> static bool may_abort(F &&f)
 {
+    int survived = g_fork_probe && !g_in_fibre ? probe_child_survives(f) : -1;
     volatile int saved_in_lib = in_lib;
     if (sigsetjmp(g_abort_jmp, 1) == 0) {
         g_abort_armed = 1;
@@ -407,6 +542,9 @@ template <class F> static bool may_abort(F &&f)
         return false;
     }
     in_lib = saved_in_lib;
+    if (survived == 1)
+        verif_fail("abort.not_fail_stop", "the call ends in SIGABRT, but with SIGABRT ignored the same call returns normally: the library "
+                   "raises the signal instead of aborting, and carries on when the signal does not kill the process");
     return true;
 }
 
@@ -417,7 +555,7 @@ static void lib_release_all()
     std::vector<std::pair<void *, size_t>> v;
     for (auto &kv : *g_live) v.push_back(kv);
     if (g_live->bucket_count() > 4096) { delete g_live; g_live = new std::unordered_map<void *, size_t>(); } else g_live->clear();
-    for (auto &kv : v) { if (g_bigs->count(kv.first)) { munmap(kv.first, kv.second); g_bigs->erase(kv.first); } else __real_free(kv.first); }
+    for (auto &kv : v) { if (g_bigs->count(kv.first)) { munmap(kv.first, kv.second); g_bigs->erase(kv.first); } else arena_free(kv.first); }
 }
 
 static void case_reset()
@@ -503,6 +641,21 @@ static void make_fault_prefix(std::vector<uint8_t> &out, const std::vector<uint3
 static void run_case(const uint8_t *d, size_t n)
 {
     case_reset();
+    arm_watchdog();
+    {
+        // allocator personality of this case (a pure function of the case bytes, so a replay sees the same one)
+        arena_flush();
+        uint64_t hh = n ? fnv64(d, n) >> 12 : 0;
+        switch (hh & 7) {
+        case 4: g_alloc_fill = 0x00; g_alloc_recycle = false; break;
+        case 5: g_alloc_fill = 0xFF; g_alloc_recycle = false; break;
+        case 6: g_alloc_fill = 0x00; g_alloc_recycle = true; break;
+        case 7: g_alloc_fill = -1; g_alloc_recycle = true; break;
+        default: g_alloc_fill = -1; g_alloc_recycle = false;
+        }
+        if (g_no_alloc_modes) { g_alloc_fill = -1; g_alloc_recycle = false; }
+    }
+    g_fork_probe = n > 0 && (fnv64(d, n) & 1023) == 0;    // 1 case in 1024 (forking a sanitized process costs milliseconds): expected aborts are also tried with SIGABRT ignored
     size_t off = parse_fault_prefix(d, n);
     d += off;
     n -= off;
